@@ -494,14 +494,31 @@ fn scramble(rng: &mut Rng, v: &[u32], a: u32, b: u32) -> Vec<u32> {
 }
 fn rename(n: &str) -> String { if n.is_empty() { String::new() } else { format!("v/{} -", n) } }
 
-/// same registration sequence: systems renamed, resources relabelled injectively, access lists permuted / with duplicates
+/// same registration sequence: systems renamed, resources relabelled injectively, access lists permuted / with duplicates;
+/// systems that no dependency list of their level mentions lose their name, anonymous systems get a fresh one
 pub fn meta_variant(rng: &mut Rng, rs: &[Reg], a: u32, b: u32) -> Vec<Reg> {
+    let mut referenced: Vec<&str> = Vec::new();
+    for r in rs {
+        match r {
+            Reg::Sys { deps, .. } | Reg::Batch { deps, .. } => referenced.extend(deps.iter().map(|d| d.as_str())),
+            _ => {}
+        }
+    }
+    let mut new_name = |rng: &mut Rng, tag: u32, name: &str| -> String {
+        if name.is_empty() {
+            if rng.chance(1, 3) { format!("w/anon{}", tag) } else { String::new() }
+        } else if !referenced.contains(&name) && rng.chance(1, 3) {
+            String::new()
+        } else {
+            rename(name)
+        }
+    };
     rs.iter().map(|r| match r {
         Reg::Sys { tag, name, deps, reads, writes, time, kind } => Reg::Sys {
-            tag: *tag, name: rename(name), deps: deps.iter().map(|d| rename(d)).collect(),
+            tag: *tag, name: new_name(rng, *tag, name), deps: deps.iter().map(|d| rename(d)).collect(),
             reads: scramble(rng, reads, a, b), writes: scramble(rng, writes, a, b), time: *time, kind: *kind },
         Reg::Batch { tag, name, deps, creads, cwrites, time, count, ctl, inner } => Reg::Batch {
-            tag: *tag, name: rename(name), deps: deps.iter().map(|d| rename(d)).collect(),
+            tag: *tag, name: new_name(rng, *tag, name), deps: deps.iter().map(|d| rename(d)).collect(),
             creads: creads.clone(), cwrites: cwrites.clone(), time: *time, count: *count, ctl: *ctl, inner: meta_variant(rng, inner, a, b) },
         Reg::Tl { tag, reads, writes } => Reg::Tl { tag: *tag, reads: scramble(rng, reads, a, b), writes: scramble(rng, writes, a, b) },
         Reg::Barrier => Reg::Barrier,
